@@ -32,6 +32,40 @@ def showBqNat (b : Bq Nat) (total : Nat) : String :=
     s!"{pad a}~{pad c}={showRat p.2}")
   s!"{String.intercalate "," linS};{String.intercalate "," quad};{showRat b.off}"
 
+def parseNatQuad (s : String) : Option (List ((Nat × Nat) × Rat)) :=
+  (csv s).mapM fun kv =>
+    match kv.splitOn "=" with
+    | [k, v] =>
+      match k.splitOn "~" with
+      | [a, b] => do let a ← a.toNat?; let b ← b.toNat?; let v ← parseRat? v; pure ((a, b), v)
+      | _ => none
+    | _ => none
+
+def parseNatLin (s : String) : Option (List (Nat × Rat)) :=
+  (csv s).mapM fun kv =>
+    match kv.splitOn "=" with
+    | [k, v] => do let k ← k.toNat?; let v ← parseRat? v; pure (k, v)
+    | _ => none
+
+/-- adjacency lists `1+2|0|-` -/
+def parseAdj (s : String) : Option (List (List Nat)) :=
+  if s = "-" then some [] else
+  (s.splitOn "|").mapM fun l => if l = "-" then some [] else (l.splitOn "+").mapM fun x => x.toNat?
+
+def showAdj (a : List (List Nat)) : String :=
+  if a.isEmpty then "-" else
+  String.intercalate "|" (a.map fun l => if l.isEmpty then "-" else String.intercalate "+" (l.map toString))
+
+/-- all samples (one case per variable) in lexicographic order -/
+def allSamples : List Nat → List (List Nat)
+  | [] => [[]]
+  | n :: r => (List.range n).flatMap fun c => (allSamples r).map fun t => c :: t
+
+def showDqm (d : Dqm) : String :=
+  let total := d.ncases.foldl (· + ·) 0
+  let es := if (allSamples d.ncases).length ≤ 4096 then String.intercalate "," ((allSamples d.ncases).map fun sm => showRat (d.energyCoded sm)) else "-"
+  showBqNat d.bq total ++ ";" ++ showAdj d.adj ++ ";" ++ es
+
 def hexLabel (s : String) : String := hexString s.toList
 
 def parseKind (fs : List String) : Option VKind :=
@@ -94,6 +128,37 @@ def answer (line : String) : String :=
       | some bag => "ok " ++ showBqNat ((Bq.empty .binary : Bq Nat).apply bag) (nc.foldl (· + ·) 0)
       | none => "err"
     | _, _, _, _ => "bad-op"
+  | ["dqmeqs", nc, lam, c, terms, lin0, quad0, off0, adj0] =>
+    match parseNats nc, parseRat? lam, parseRat? c, parseDqmTerms terms, parseNatLin lin0, parseNatQuad quad0, parseRat? off0, parseAdj adj0 with
+    | some nc, some lam, some c, some terms, some lin0, some quad0, some off0, some adj0 =>
+      let b0 : Bq Nat := { vt := .binary, lin := lin0, quad := quad0, off := off0 }
+      let d : Dqm := { ncases := nc, bq := b0, adj := adj0 ++ List.replicate (nc.length - adj0.length) [] }
+      match dqmAddEq d terms lam c with
+      | some d' => "ok " ++ showDqm d'
+      | none => "err"
+    | _, _, _, _, _, _, _, _ => "bad-op"
+  | ["ineqdqms", method, nc, lam, label, c, lb, ub, cross, terms, lin0, quad0, off0, adj0] =>
+    match parseNats nc, parseRat? lam, c.toInt?, lb.toInt?, ub.toInt?, parseDqmTerms terms, parseNatLin lin0, parseNatQuad quad0, parseRat? off0, parseAdj adj0 with
+    | some nc, some lam, some c, some lb, some ub, some terms, some lin0, some quad0, some off0, some adj0 =>
+      let b0 : Bq Nat := { vt := .binary, lin := lin0, quad := quad0, off := off0 }
+      let d : Dqm := { ncases := nc, bq := b0, adj := adj0 ++ List.replicate (nc.length - adj0.length) [] }
+      let coeffs := terms.map fun t => t.2.2.num
+      match ineqPlan coeffs c lb ub with
+      | .skip => "skip"
+      | .infeasible => "raise"
+      | .equality ubc =>
+        match dqmAddEq d terms lam (-(ubc : Rat)) with
+        | some d' => "ok ;" ++ showDqm d'
+        | none => "err"
+      | .slack ubc lbc S =>
+        let sv := dqmSlack (hexLabel label) method ubc lbc S (cross = "1")
+        let d1 : Dqm := { d with ncases := nc ++ sv.map (·.ncases), adj := d.adj ++ sv.map (fun _ => []) }
+        let extra := (List.range sv.length).flatMap fun j =>
+          ((sv.getD j { label := "", ncases := 0, cases := [] }).cases.map fun cv => (nc.length + j, cv.1, (cv.2 : Rat)))
+        match dqmAddEq d1 (terms ++ extra) lam (-(ubc : Rat)) with
+        | some d' => "ok " ++ String.intercalate "," (sv.map showSlackVar) ++ ";" ++ showDqm d'
+        | none => "err"
+    | _, _, _, _, _, _, _, _, _, _ => "bad-op"
   | ["ineqbqm", lam, label, c, lb, ub, cross, terms] =>
     match parseRat? lam, c.toInt?, lb.toInt?, ub.toInt?, parseTerms terms with
     | some lam, some c, some lb, some ub, some terms =>
